@@ -460,6 +460,10 @@ for _id, _prop, _rule, _desc, _eb in [
     ("c03-optional-not-engaged", "C03", "R03.12", "QueryResponse::read dereferencing response_processing_data without storing a value into it first", True),
     ("c19-reindex-counts-down", "C19", "R19.5", "BlockTable::rebuild_indexes entering the items under 0, -1, -2 ..", False),
     ("c01-read-cursor-starts-at-one", "C01", "R01.19", "CdnsBlockRead::read leaving m_mm_read at 1: the first malformed message of every block is skipped", False),
+    ("c17-negative-offset-added", "C17", "R17.7", "add_time_offset adding the magnitude of a negative offset", False),
+    ("c17-positive-offset-dropped", "C17", "R17.7", "add_time_offset ignoring a non-negative offset", False),
+    ("c07-head-not-consumed", "C07", "R07.14", "read_cbor_type that does not move the cursor past the head", False),
+    ("c07-chunk-bytes-dropped", "C07", "R07.9", "read_string skipping the bytes of the chunks of an indefinite-length string", False),
     ("c19-memo-not-reset", "C19", "R19.2", "ip-address lookup memo (C12g/3) that CdnsBlock::operator= does not reset", False),
     ("c16-guard-armed-early", "C16", "R16.6", "BlockClearGuard (C12g/2) armed before the write it guards", False),
     ("c16-guard-armed-early-c12", "C12", "R12.4", "BlockClearGuard (C12g/2) armed before the write it guards", False),
